@@ -59,6 +59,10 @@ CLAIMS = {
  'C14': dict(cat='other', ref='DESIGN 3 C14', technique='purity/effect rules over the typed program; sink-use rule; sink-method agreement and raw-vs-serialised identity by abstract evaluation',
    text='No statics, interior mutability or hand-written unsafe exist and serialisers take &self; all 152 serialisers evaluate with no unknown callee; all 581 uses of a sink value are receiver-of-the-five-methods or forwarding; the four default methods and every override of the four in-crate sinks deliver exactly the little-endian bytes in order; for the 31 types that are both IntoBytes and Aml the emission equals the layout bytes.',
    note='Foreign sinks/types are out of reach; little-endian target.'),
+
+ 'C18': dict(cat='other', ref='DESIGN 3 C18', technique='value-range analysis (abstract interpretation with guards as dominating facts and private-field invariants) over every narrowing cast, overflow-prone arithmetic, discarding mask and wrapping op; MIR site cross-check',
+   text='Every serialiser (152, on symbolic receivers) and every public function (300+, on symbolic arguments) is scanned: each narrowing cast, + - *, lossy mask or emitted wrapping op whose operand range is not proven to fit by a dominating guard is classified capacity-bounded / plain value / index-only (informational) or unguarded (violation). The site set is cross-checked against rustc\'s MIR narrowing casts and overflow assertions, which exist only with overflow checks on - so what is left unguarded is exactly what would wrap in release. 37 unguarded sites found on the original tree were repaired by fix: commits.',
+   note='Capacity rule: >= 32-bit totals of sizes of objects that already exist in memory (>= 4 GiB images) are informational.'),
 }
 NOT_YET = 'check not built yet (build in progress; design in DESIGN.md section 3)'
 
